@@ -54,7 +54,9 @@ if w.get("op") == "join":
             for i in range(n):
                 m.add_atom(ml.Atom(str(rng.choice(["C", "N", "O", "F", "S"])), label=f"{tag}{i}"), rng.uniform(-3, 3, size=3), float(rng.uniform(-1, 1)))
             for i in range(1, n):
-                m.connect(int(rng.integers(0, i)), i)
+                j = int(rng.integers(0, i))
+                # bonds are stored in either orientation
+                (m.connect(i, j) if rng.random() < 0.5 else m.connect(j, i))
             # a leaf becomes the attachment point
             deg = [m.n_bonds_with_atom(a) for a in m.atoms]
             leaves = [i for i, d in enumerate(deg) if d == 1]
@@ -100,6 +102,19 @@ if w.get("op") == "join":
         if np.linalg.norm(np.cross(pb - pa, vA)) > 1e-6 * np.linalg.norm(vA) or np.dot(pb - pa, vA) <= 0:
             bad.append("new bond does not point along A's attachment direction")
             break
+        if trial % 2 == 0 and B.n_atoms > 2:
+            # B the right way round: every other atom of B lies where the rigid motion (nbB -> pb, apB direction -> -vA) puts it
+            vB = B.get_atom_coord(apB) - B.get_atom_coord(nbB)
+            others = [a for a in B.atoms if a is not apB and a is not nbB]
+            for a in others:
+                w0 = B.get_atom_coord(a) - B.get_atom_coord(nbB)
+                w1 = r.get_atom_coord(la[a.label]) - pb
+                # the component along the attachment direction is preserved up to the reversal: w0.vB/|vB| = -w1.vA/|vA| ... (apB direction -> -vA)
+                if abs(np.dot(w0, vB) / np.linalg.norm(vB) - np.dot(w1, -vA) / np.linalg.norm(vA)) > 1e-6:
+                    bad.append("fragment B is attached the wrong way round (its attachment direction does not oppose A's)")
+                    break
+            if bad:
+                break
         for src in (A, B):
             idx = [la[a.label] for a in src.atoms if a.atype != ml.AtomType.AttachmentPoint]
             s0 = np.array([src.get_atom_coord(a) for a in src.atoms if a.atype != ml.AtomType.AttachmentPoint])
